@@ -191,6 +191,21 @@ def enum_cases(maxn, part, parts):
                     if comb == "f_traverse":
                         for k in range(n):
                             yield {"comb": comb, "n": n, "args": list(range(n)), "threads": [evs], "tape": [], "fn_raises": k}
+    # every number of inputs up to 40 and around powers of two (the output type changes with the count: named tuples up to a
+    # limit, plain tuples beyond), all succeeding, completed in order / in reverse / before the call
+    sizes = list(range(5, 41)) + [63, 64, 65, 127, 128, 129, 255, 256, 257]
+    for comb in ("f_zip", "f_sequence", "f_traverse"):
+        for n in sizes:
+            for how in ("forward", "reverse", "predone"):
+                idx += 1
+                if idx % parts != part:
+                    continue
+                order = list(range(n)) if how != "reverse" else list(reversed(range(n)))
+                evs = [["c", i, "value", i] for i in order]
+                if how == "predone":
+                    yield {"comb": comb, "n": n, "args": list(range(n)), "predone": dict((str(i), ["value", i]) for i in range(n)), "threads": [[]], "tape": [], "max_steps": 10 ** 6}
+                else:
+                    yield {"comb": comb, "n": n, "args": list(range(n)), "threads": [evs], "tape": [], "max_steps": 10 ** 6}
     if part == 0:
         n = 1000
         for comb in ("f_zip", "f_sequence"):
